@@ -97,6 +97,11 @@ func c17Seeds(scheme string, lvl int) []string {
 		"vers:" + scheme + "/>=" + p0[1] + "|<" + p0[3],
 		"vers:" + scheme + "/<" + p0[1] + "|=" + p0[3] + "|>" + p0[5],
 		"vers:" + scheme + "/!=" + p1[3],
+		// the first probe (p0[2]) is decided by the FIRST constraint / interval of these seeds, so a
+		// corruption further right is only noticed by code that validates before it answers
+		"vers:" + scheme + "/!=" + p0[2] + "|!=" + p0[4],
+		"vers:" + scheme + "/=" + p0[2] + "|=" + p0[4],
+		"vers:" + scheme + "/>=" + p0[1] + "|<" + p0[3] + "|>=" + p0[5] + "|<" + p0[7],
 	}
 	if lvl > 0 {
 		seeds = append(seeds,
@@ -139,6 +144,45 @@ func c17Corruptions(seed string) []string {
 		}
 	}
 	return out
+}
+
+// c17Corruptions2 calls f on every TWO-point corruption of seed: each of delete / replace-by-c /
+// insert-c at a position i combined with each of them at a later position j.
+func c17Corruptions2(seed string, f func(string)) {
+	type edit struct {
+		pos  int
+		kind int // 0 delete, 1 replace, 2 insert
+		c    string
+	}
+	var edits []edit
+	for i := 5; i <= len(seed); i++ { // keep the "vers:" prefix (prefix damage is covered by the single-point pass)
+		if i < len(seed) {
+			edits = append(edits, edit{i, 0, ""})
+			for _, c := range c17Sigma {
+				edits = append(edits, edit{i, 1, c})
+			}
+		}
+		for _, c := range c17Sigma {
+			edits = append(edits, edit{i, 2, c})
+		}
+	}
+	apply := func(s string, e edit) string {
+		switch e.kind {
+		case 0:
+			return s[:e.pos] + s[e.pos+1:]
+		case 1:
+			return s[:e.pos] + e.c + s[e.pos+1:]
+		}
+		return s[:e.pos] + e.c + s[e.pos:]
+	}
+	for a := range edits {
+		for b := range edits {
+			if edits[b].pos <= edits[a].pos {
+				continue
+			}
+			f(apply(apply(seed, edits[b]), edits[a])) // the later position first: indices stay valid
+		}
+	}
 }
 
 // c17Discriminators: version spellings on which the ecosystems disagree about acceptance or order.
@@ -273,6 +317,30 @@ func c17CorruptUnit(scheme string, lvl int) core.Unit {
 				}
 			}
 		}
+		if lvl > 0 {
+			// thorough: every two-point corruption of the first seed, first probe and an invalid probe
+			seed := c17Seeds(scheme, lvl)[0]
+			c17Corruptions2(seed, func(cs string) {
+				r.Add("states", 1)
+				for _, p := range []string{probes[0], "not a version"} {
+					why := versMustError(cs, p)
+					got, errish, pn := versCall(cs, p)
+					r.Add("evaluations", 1)
+					if pn {
+						r.Violate(core.Violation{Property: "C17", Scope: scheme, Kind: "corrupt-panic", Inputs: []string{cs, p}, Expected: "no panic", Got: "panic"})
+						continue
+					}
+					if why == "" {
+						continue
+					}
+					r.Add("nontrivial", 1)
+					if !errish || got {
+						r.Violate(core.Violation{Property: "C17", Scope: scheme, Kind: "corrupt-accepted:" + why, Inputs: []string{cs, p},
+							Expected: "(false, error): " + why, Got: fmt.Sprintf("%v err=%v", got, errish)})
+					}
+				}
+			})
+		}
 		r.Sample("corruption", map[string]any{"seed": c17Seeds(scheme, lvl)[0], "example": c17Corruptions(c17Seeds(scheme, lvl)[0])[7]})
 	}}
 }
@@ -338,7 +406,7 @@ func init() {
 				"distinct_nontrivial":           r.Counters["nontrivial"],
 			}
 		},
-		Rule:        "validation: for 3 (quick) / 9 (thorough) valid seed ranges per scheme, EVERY single-point corruption - delete at each position, replace by and insert each character of {a z A 0 9 : / | * = < > ! . - SP TAB NUL e-acute ~ DEL 0x1f 0x80} at each position - plus scheme case changes, operator manglings and prefix damage, each with 5 probes (two releases, a pre-release spelling, an invalid and an empty string); a reference classifier (Appendix A.9) decides which results must be (false, error). routing: for each scheme every (comparator, bound, probe) over 45 discriminating version spellings must equal the scheme's ecosystem's own Compare and must be an error iff that ecosystem rejects a version; the run also proves that for every other ecosystem at least one pair distinguishes it (internal error otherwise). 28 near-miss scheme names must be rejected. distinct_nontrivial = cases with a definite expectation.",
+		Rule:        "validation: for 6 (quick) / 12 (thorough) valid seed ranges per scheme (three of them decided for the first probe by their first constraint, so that corruptions further right test validate-before-answer), EVERY single-point corruption - delete at each position, replace by and insert each character of {a z A 0 9 : / | * = < > ! . - SP TAB NUL e-acute ~ DEL 0x1f 0x80} at each position - plus scheme case changes, operator manglings and prefix damage (thorough: also EVERY two-point corruption of the first seed behind the prefix), each with 5 probes (two releases, a pre-release spelling, an invalid and an empty string); a reference classifier (Appendix A.9) decides which results must be (false, error). routing: for each scheme every (comparator, bound, probe) over 45 discriminating version spellings must equal the scheme's ecosystem's own Compare and must be an error iff that ecosystem rejects a version; the run also proves that for every other ecosystem at least one pair distinguishes it (internal error otherwise). 28 near-miss scheme names must be rejected. distinct_nontrivial = cases with a definite expectation.",
 		Assumptions: []string{"version validity in rule 9 of the classifier is the scheme's ecosystem parser itself (C17 states it that way)", "the lone '*' range is not covered, as stated"},
 	})
 }
